@@ -326,8 +326,47 @@ func owSeqScenario(p owParams) func() {
 	}
 }
 
+// pnEmptyScenario: the per-node function gives one node a valid message whose fields are all at their
+// default values (an empty payload). That node must receive exactly that message, like every other node.
+func pnEmptyScenario(n, empty int) func() {
+	return func() {
+		w := world.New(world.Opts{N: n})
+		if w.Cfg == nil {
+			return
+		}
+		w.Handle = func(h *world.HCtx) world.Reply { return world.Reply{} }
+		c := w.NewCall("MulticastPerNodeArg")
+		c.Empty = []int{empty}
+		w.Start(c)
+		mc.Quiesce()
+		name := fmt.Sprintf("pernode/MulticastPerNodeArg/n=%d/all-default-message-for-node-%d", n, empty)
+		for id := 1; id <= n; id++ {
+			got := w.EventsOf("enter", id)
+			want := fmt.Sprintf("%s/n%d", c.Req.Value, id)
+			if id == empty {
+				want = ""
+			}
+			switch {
+			case len(got) != 1:
+				fail("C06/delivery-count", "multicast/all-default-message", "%s: node %d received the call %d times, expected exactly once (its message is valid: every field at its default)", name, id, len(got))
+			case got[0].Payload != want:
+				fail("C06/payload", "multicast/all-default-message", "%s: node %d received %q, expected %q", name, id, got[0].Payload, want)
+			}
+		}
+		if !c.Returned {
+			fail("C06/oneway-waits", "multicast/all-default-message", "%s: the call has not returned", name)
+		}
+		mc.Outcome("ok")
+	}
+}
+
 func c06Instances(tier string) []Instance {
 	var out []Instance
+	for n := 1; n <= 3; n++ {
+		for e := 1; e <= n; e++ {
+			out = append(out, Instance{Name: fmt.Sprintf("pernode/MulticastPerNodeArg/n=%d/all-default-message-for-node-%d", n, e), Bound: 1, Root: pnEmptyScenario(n, e)})
+		}
+	}
 	kinds := []string{"QuorumCallPerNodeArg", "QuorumCallCombo", "QuorumCallAsyncPerNodeArg", "QuorumCallAsyncCombo", "CorrectablePerNodeArg", "CorrectableCombo", "CorrectableStreamPerNodeArg", "CorrectableStreamCombo", "MulticastPerNodeArg",
 		"QuorumCall", "QuorumCallCustomReturnType", "QuorumCallAsync", "Correctable", "CorrectableStream", "Multicast"}
 	bound := 2
@@ -383,7 +422,7 @@ func c06Instances(tier string) []Instance {
 
 func init() {
 	register(&Check{ID: "C06",
-		Rule:        "(a) n in 1..3 x every skip subset of the per-node function (node-distinct payloads) x 9 call variants that take one + 6 plain variants x threshold {targeted, targeted+1}: each server's received payload, delivery count and the call's completion / counts are compared with f(request, i); (b) unicast / multicast variants x send-waiting on/off x node state {idle, handlers blocked forever, endpoints down, transport window full with earlier messages}: the call must have returned at the first quiescent point without any handler returning (and, with no-send-waiting, without the connection); (c) two one-way calls with {nothing, a stream reset, a crash and restart of every node} while the client is idle in between - or striking as an adversary thread during the second call, or the first call's context ending before / during it -, back-off timers fired to a horizon of 4 rounds: every message is handled at most once, and exactly once when the call reported no error; all schedules within the deviation bound; an outcome is (instance, returned, deliveries)",
+		Rule:        "(a) n in 1..3 x every skip subset of the per-node function (node-distinct payloads) x 9 call variants that take one + 6 plain variants x threshold {targeted, targeted+1}: each server's received payload (also when the per-node function gives a node a valid all-default message), delivery count and the call's completion / counts are compared with f(request, i); (b) unicast / multicast variants x send-waiting on/off x node state {idle, handlers blocked forever, endpoints down, transport window full with earlier messages}: the call must have returned at the first quiescent point without any handler returning (and, with no-send-waiting, without the connection); (c) two one-way calls with {nothing, a stream reset, a crash and restart of every node} while the client is idle in between - or striking as an adversary thread during the second call, or the first call's context ending before / during it -, back-off timers fired to a horizon of 4 rounds: every message is handled at most once, and exactly once when the call reported no error; all schedules within the deviation bound; an outcome is (instance, returned, deliveries)",
 		Gen:         c06Instances,
 		Assumptions: []string{"'without waiting' is decided untimed: at quiescence, before any gate is opened or timer fired", "transport is the fakegrpc model with window 1 for the one-way family"},
 	})
